@@ -133,6 +133,75 @@ theorem wcaDmax_iter_antitone (d0 : ℝ) (N : ℕ) (hN : 1 ≤ N) (hd : 0 ≤ d0
     Antitone fun k => (fun d => wcaDmax d N)^[k] d0 :=
   iterate_shrink_antitone _ (fun x hx => wcaDmax_antitone_nonneg x N hN hx) d0 hd
 
+
+/-! ### the schedules as functions of the iteration: end points and direction (every `N`, every pair of iterations) -/
+
+/-- IHS: `PAR` starts at `PAR_min` -/
+theorem ihsPAR_zero (pmin pmax : ℝ) (N : ℕ) : ihsPAR pmin pmax N 0 = pmin := by
+  rw [ihsPAR_real]; simp
+
+/-- IHS: `PAR` would reach `PAR_max` at `t = N` (the run stops at `N - 1`) -/
+theorem ihsPAR_last (pmin pmax : ℝ) (N : ℕ) (hN : 0 < N) : ihsPAR pmin pmax N N = pmax := by
+  rw [ihsPAR_real]
+  have hN' : (N : ℝ) ≠ 0 := by exact_mod_cast hN.ne'
+  field_simp; ring
+
+/-- IHS: `PAR` never decreases from one iteration to a later one -/
+theorem ihsPAR_monotone (pmin pmax : ℝ) (N t t' : ℕ) (hp : pmin ≤ pmax) (htt : t ≤ t') :
+    ihsPAR pmin pmax N t ≤ ihsPAR pmin pmax N t' := by
+  rw [ihsPAR_real, ihsPAR_real]
+  have hd : 0 ≤ (pmax - pmin) / (N : ℝ) := div_nonneg (sub_nonneg.mpr hp) (Nat.cast_nonneg N)
+  have ht : (t : ℝ) ≤ (t' : ℝ) := by exact_mod_cast htt
+  have := mul_le_mul_of_nonneg_left ht hd
+  linarith
+
+/-- IHS: `bw` starts at `bw_max` -/
+theorem ihsBw_zero (bmin bmax : ℝ) (N : ℕ) : ihsBw bmin bmax N 0 = bmax := by
+  rw [ihsBw_real]; simp
+
+/-- IHS: `bw` would reach `bw_min` at `t = N` -/
+theorem ihsBw_last (bmin bmax : ℝ) (N : ℕ) (hN : 0 < N) (h0 : 0 < bmin) (hb : bmin ≤ bmax) :
+    ihsBw bmin bmax N N = bmin := by
+  rw [ihsBw_real]
+  have hmax : 0 < bmax := lt_of_lt_of_le h0 hb
+  have hN' : (N : ℝ) ≠ 0 := by exact_mod_cast hN.ne'
+  have e : Real.log (bmin / bmax) / (N : ℝ) * (N : ℝ) = Real.log (bmin / bmax) := by field_simp
+  rw [e, Real.exp_log (div_pos h0 hmax)]
+  field_simp
+
+/-- IHS: `bw` never increases from one iteration to a later one -/
+theorem ihsBw_antitone (bmin bmax : ℝ) (N t t' : ℕ) (h0 : 0 < bmin) (hb : bmin ≤ bmax) (htt : t ≤ t') :
+    ihsBw bmin bmax N t' ≤ ihsBw bmin bmax N t := by
+  rw [ihsBw_real, ihsBw_real]
+  have hmax : 0 < bmax := lt_of_lt_of_le h0 hb
+  have hr0 : 0 < bmin / bmax := div_pos h0 hmax
+  have hr1 : bmin / bmax ≤ 1 := by rw [div_le_one hmax]; exact hb
+  have hlog : Real.log (bmin / bmax) / (N : ℝ) ≤ 0 :=
+    div_nonpos_of_nonpos_of_nonneg (Real.log_nonpos hr0.le hr1) (Nat.cast_nonneg N)
+  have ht : (t : ℝ) ≤ (t' : ℝ) := by exact_mod_cast htt
+  have hexp : Real.log (bmin / bmax) / (N : ℝ) * (t' : ℝ) ≤ Real.log (bmin / bmax) / (N : ℝ) * (t : ℝ) :=
+    mul_le_mul_of_nonpos_left ht hlog
+  exact mul_le_mul_of_nonneg_left (Real.exp_le_exp.mpr hexp) hmax.le
+
+/-- AIWPSO: more successes never give a smaller inertia weight -/
+theorem aiwpsoW_monotone (wmin wmax : ℝ) (p p' n : ℕ) (hw : wmin ≤ wmax) (hpp : p ≤ p') :
+    aiwpsoW wmin wmax p n ≤ aiwpsoW wmin wmax p' n := by
+  rw [aiwpsoW_real, aiwpsoW_real]
+  have hd : 0 ≤ wmax - wmin := sub_nonneg.mpr hw
+  have hp : (p : ℝ) / (n : ℝ) ≤ (p' : ℝ) / (n : ℝ) :=
+    div_le_div_of_nonneg_right (by exact_mod_cast hpp) (Nat.cast_nonneg n)
+  have := mul_le_mul_of_nonneg_left hp hd
+  linarith
+
+/-- AIWPSO: no success gives `w_min`, all successes give `w_max` -/
+theorem aiwpsoW_ends (wmin wmax : ℝ) (n : ℕ) (hn : 0 < n) :
+    aiwpsoW wmin wmax 0 n = wmin ∧ aiwpsoW wmin wmax n n = wmax := by
+  rw [aiwpsoW_real, aiwpsoW_real]
+  have hn' : (n : ℝ) ≠ 0 := by exact_mod_cast hn.ne'
+  constructor
+  · simp
+  · rw [div_self hn']; ring
+
 /-! satisfiability of the hypotheses, on concrete numbers -/
 
 example : (0 : ℕ) < 20 ∧ (7 : ℕ) ≤ 20 ∧ (0.4 : ℝ) ≤ 0.9 := by norm_num
@@ -140,6 +209,7 @@ example : (0 : ℕ) < 1000 ∧ (999 : ℕ) < 1000 ∧ (0 : ℝ) ≤ 1 := by norm
 example : (0 : ℕ) < 1000 ∧ (999 : ℕ) < 1000 ∧ (0 : ℝ) < 1 ∧ (1 : ℝ) ≤ 10 := by norm_num
 example : (0 : ℝ) ≤ 100 ∧ (0 : ℝ) ≤ 0.999 ∧ (0.999 : ℝ) ≤ 1 := by norm_num
 example : (1 : ℕ) ≤ 1000 ∧ (0 : ℝ) ≤ 0.1 := by norm_num
+example : (0.01 : ℝ) ≤ 0.99 ∧ (3 : ℕ) ≤ 7 ∧ (0 : ℝ) < 0.0001 ∧ (0.0001 : ℝ) ≤ 1 := by norm_num
 example : successCount [(1 : ℕ), 5, 2] [3, 4, 9] = 2 := by decide
 example : successLoop [(1 : ℕ), 5, 2] [3, 4, 9] = 2 := by decide
 
@@ -159,5 +229,13 @@ example : successLoop [(1 : ℕ), 5, 2] [3, 4, 9] = 2 := by decide
 #print axioms wcaDmax_antitone_nonneg
 #print axioms wcaDmax_iter
 #print axioms wcaDmax_iter_antitone
+#print axioms ihsPAR_zero
+#print axioms ihsPAR_last
+#print axioms ihsPAR_monotone
+#print axioms ihsBw_zero
+#print axioms ihsBw_last
+#print axioms ihsBw_antitone
+#print axioms aiwpsoW_monotone
+#print axioms aiwpsoW_ends
 
 end Opy
